@@ -1,8 +1,8 @@
 #!/bin/bash
-# usage: seedbatch.sh <lane-file>   each line: <seed id> <PID> <tier> <only-regex or ->
-while read id pid tier only; do
+# usage: seedbatch.sh <lane-file>   each line: <seed id> <PID> <tier> <only-regex or -> [skip]
+while read id pid tier only skip; do
   [ -z "$id" ] && continue
-  args=""; [ "$only" != "-" ] && args="--only $only"
+  args=""; [ "$only" != "-" ] && args="--only $only"; [ "$skip" == "skip" ] && args="$args --skip-suite"
   echo "=== $id $pid $tier $only $(date +%H:%M)"
   python3 /verif/tools/seedcheck.py /verif/seeded/$id $pid --tier $tier $args -j 5 --wt /tmp/seedwt_$id 2>&1 | tail -25
 done < "$1"
